@@ -219,7 +219,8 @@ def prove_function(uname, t, cfile, qual, spec, tier, extra_replace):
                if g != cname and len(re.findall(r'\b%s\s*\(' % re.escape(g), text)) >= 2]
     seen = set()
     replace = [g for g in replace if not (g in seen or seen.add(g))]
-    gi = ['goto-instrument', '--dfcc', 'h_' + cname, '--enforce-contract', cname]
+    # a recursive function: its own recursive calls are assumed to satisfy the contract that is being enforced (induction on the call depth)
+    gi = ['goto-instrument', '--dfcc', 'h_' + cname, '--enforce-contract-rec' if spec.get('recursive') else '--enforce-contract', cname]
     for g in replace:
         gi += ['--replace-call-with-contract', g]
     if not spec.get('no_loop_contracts'):
